@@ -12,7 +12,7 @@ queries of the ball tree return the k closest points in increasing distance orde
 3. TLC (spec/KNN.tla) emits lattice point sets / queries with the sorted order; the real Ball / KNN
    are queried for every k and every leaf size through every entry point.
 """
-import json, math, os, subprocess, time
+import json, math, os, subprocess, time, zlib
 import vlib
 from vlib import Check, Broken, log
 
@@ -56,21 +56,22 @@ def make_plan(tier):
 
 
 def bounds(tier):
+    s = vlib.seed()
     if tier == "quick":
         return dict(
-            emit=dict(MaxN=5, MaxDir=3, MaxP=3, Salts=[vlib.seed()], Rich=False, Emit=True, EmitMod=1,
-                      FullN=5, FullDir=3, FullP=3),
-            mc=None,
-            knn=[dict(D=[2], Side=3, Step=3, QMargin=1, MaxPts=5, Orders=2)])
-    s = vlib.seed()
+            neigh=[dict(MaxN=5, MaxDir=3, PVals=[0, 1, 2, 3], Salts=[s], Rich=False, Emit=True, EmitMod=1,
+                        FullN=5, FullDir=3)],
+            knn=[dict(D=[2], Side=3, Step=3, QMargin=1, MaxPts=5, Orders=1)])
     return dict(
-        emit=dict(MaxN=6, MaxDir=4, MaxP=7, Salts=[s], Rich=True, Emit=True, EmitMod=12,
-                  FullN=4, FullDir=4, FullP=4),
-        mc=dict(MaxN=6, MaxDir=4, MaxP=7, Salts=[s + 1], Rich=True, Emit=False, EmitMod=1,
-                FullN=0, FullDir=0, FullP=0),
+        # run 0: complete in the parameters (values beyond the number of candidates behave alike)
+        # run 1: up to 6 candidates and 4 sectors, parameters up to 7 on a coarser grid
+        neigh=[dict(MaxN=4, MaxDir=4, PVals=[0, 1, 2, 3, 4, 5, 6, 7], Salts=[s], Rich=True, Emit=True, EmitMod=4,
+                    FullN=3, FullDir=4),
+               dict(MaxN=6, MaxDir=4, PVals=[0, 1, 2, 4, 7], Salts=[s + 1], Rich=True, Emit=True, EmitMod=8,
+                    FullN=0, FullDir=0)],
         knn=[dict(D=[1], Side=7, Step=2, QMargin=2, MaxPts=6, Orders=2),
-             dict(D=[2], Side=3, Step=3, QMargin=2, MaxPts=7, Orders=3),
-             dict(D=[2], Side=4, Step=2, QMargin=1, MaxPts=4, Orders=2),
+             dict(D=[2], Side=3, Step=3, QMargin=2, MaxPts=7, Orders=2),
+             dict(D=[2], Side=4, Step=2, QMargin=1, MaxPts=4, Orders=1),
              dict(D=[3], Side=2, Step=3, QMargin=1, MaxPts=7, Orders=2)])
 
 
@@ -78,14 +79,13 @@ MC_CFG = """SPECIFICATION Spec
 CONSTANTS
   MaxN = %(MaxN)d
   MaxDir = %(MaxDir)d
-  MaxP = %(MaxP)d
+  PVals = {%(pvals)s}
   Salts = {%(salts)s}
   Rich = %(rich)s
   Emit = %(emit)s
   EmitMod = %(EmitMod)d
   FullN = %(FullN)d
   FullDir = %(FullDir)d
-  FullP = %(FullP)d
 INVARIANT Inv_Core Inv_BallSufficient Inv_Emit
 CHECK_DEADLOCK FALSE
 """
@@ -140,7 +140,7 @@ def run_parallel(exe, mode, chunks, extra, outs, timeout):
             crashes.append(rec)
             if nrestart > 200:
                 raise Broken("neigh_run: more than 200 crashes in one chunk")
-            resume = (rec["g"], rec["k"] + 1) if mode == "neigh" else (rec["k"] + 1,)
+            resume = (rec["k"], rec["g"] + 1) if mode == "neigh" else (rec["k"] + 1,)
             procs.append([i, start(i, resume), nrestart + 1])
             continue
         raise Broken("harness neigh_run %s failed (exit %s): %s" % (mode, p.returncode, (err or "")[-2000:]))
@@ -153,128 +153,225 @@ def nchunks():
 
 # ------------------------------------------------------------------------------------ NeighMoving part
 
+def case_id(key):
+    """Identifier derived from the content of a case (TLC's emission order depends on its workers):
+    all pseudo-random choices of the harness (configurations, leaf sizes, ...) derive from it."""
+    return zlib.crc32(json.dumps(key, separators=(",", ":")).encode()) & 0x3FFFFFFF
+
+
+class Chunks:
+    """Round-robin ndjson writer over the chunk files of the parallel harness runs."""
+    def __init__(self, w, prefix):
+        self.n = nchunks()
+        self.cases = [os.path.join(w, "%scases_%d.ndjson" % (prefix, i)) for i in range(self.n)]
+        self.outs = [os.path.join(w, "%sobs_%d.ndjson" % (prefix, i)) for i in range(self.n)]
+        self.files = [open(p, "w") for p in self.cases]
+        self.count = 0
+
+    def write(self, rec):
+        self.files[rec["id"] % self.n].write(json.dumps(rec, separators=(",", ":")) + "\n")
+        self.count += 1
+
+    def close(self):
+        for f in self.files:
+            f.close()
+
+
+def lockstep(casefile, obsfile):
+    """Yields (case, [observation records of that case]) ; the harness writes its records in the
+    order of the cases (field k = line number of the case)."""
+    with open(casefile) as fc, open(obsfile) as fo:
+        pending = None
+        obs_iter = (json.loads(l) for l in fo if l.strip())
+        for k, line in enumerate(fc):
+            mine = []
+            while True:
+                if pending is None:
+                    pending = next(obs_iter, None)
+                if pending is None or pending["k"] != k:
+                    break
+                mine.append(pending)
+                pending = None
+            yield json.loads(line), mine
+        if pending is not None:
+            raise Broken("observation file %s is not aligned with its cases" % obsfile)
+
+
+class Disagreements:
+    """Collects the disagreements per class (= the record given to Check.disagree) and hands them to
+    Check.disagree in a deterministic order; a full replay object is kept for the `keep` smallest
+    case identifiers of each class only (a broken library can produce 10^5 disagreements)."""
+    def __init__(self, keep=20):
+        self.keep = keep
+        self.classes = {}
+
+    def add(self, rec, ident, make_replay):
+        k = json.dumps(rec, sort_keys=True)
+        cl = self.classes.setdefault(k, {"rec": rec, "n": 0, "kept": []})
+        cl["n"] += 1
+        kept = cl["kept"]
+        if len(kept) < self.keep or ident < kept[-1][0]:
+            kept.append((ident, make_replay()))
+            kept.sort(key=lambda t: (t[0], json.dumps(t[1], sort_keys=True, default=str)))
+            del kept[self.keep:]
+
+    def flush(self, ck):
+        for k in sorted(self.classes):
+            cl = self.classes[k]
+            for j in range(cl["n"]):
+                if j < len(cl["kept"]):
+                    ck.disagree(cl["rec"], cl["kept"][j][1])
+                else:
+                    ck.disagree(cl["rec"], {"note": "replay omitted: same class of disagreement as the previous ones",
+                                            "class_size": cl["n"]})
+            if not ck.known_match(cl["rec"]):
+                log("[C06] unlisted disagreement x%d: %s" % (cl["n"], k))
+
+
+class Samples:
+    """Deterministic choice of a few evidence samples: the ones with the smallest identifiers."""
+    def __init__(self, cap=3):
+        self.cap = cap
+        self.items = []
+
+    def offer(self, ident, make):
+        if len(self.items) < self.cap or ident < self.items[-1][0]:
+            self.items.append((ident, make()))
+            self.items.sort(key=lambda t: t[0])
+            del self.items[self.cap:]
+
+
 def neigh_part(ck, tier, exe, B, plan):
     w = ck.work
     planp = os.path.join(w, "plan.json")
-    plan_h = dict(plan, maxn=max(B["emit"]["MaxN"], (B["mc"] or B["emit"])["MaxN"]),
-                  maxdir=max(B["emit"]["MaxDir"], (B["mc"] or B["emit"])["MaxDir"]))
+    plan_h = dict(plan, maxn=max(b["MaxN"] for b in B["neigh"]), maxdir=max(b["MaxDir"] for b in B["neigh"]))
     json.dump(plan_h, open(planp, "w"))
     geomp = os.path.join(w, "geom.json")
     vlib.run_harness(exe, ["geom", planp, geomp])
-    geom = json.load(open(geomp))
-    metric_names = geom["names"]
+    metric_names = json.load(open(geomp))["names"]
 
-    # ---- TLC: model checking (and emission)
-    states = trans = 0
-    runs = [("emit", B["emit"])] + ([("mc", B["mc"])] if B["mc"] else [])
-    cases = []
-    for tag, b in runs:
-        cfgp = os.path.join(w, "mc_%s.cfg" % tag)
-        open(cfgp, "w").write(MC_CFG % dict(b, salts=", ".join(str(s) for s in b["Salts"]), rich=tla_bool(b["Rich"]),
-                                            emit=tla_bool(b["Emit"])))
-        res = vlib.run_tlc("MC_NeighMoving", cfgp, env={"GEOM": geomp}, timeout=3000, heap="4g",
-                           on_emit=cases.append)
-        if res.violation:
-            raise Broken("the transcription of the code disagrees with the definition inside the model "
-                         "(MC_NeighMoving, %s):\n%s" % (tag, res.violation))
-        states += res.distinct
-        trans += res.generated
-        ck.cov["mc_%s" % tag] = dict(constants={k: v for k, v in b.items()}, distinct_states=res.distinct,
-                                     generated=res.generated, wall_s=round(res.wall, 1))
-        log("[C06] MC_NeighMoving/%s: %d distinct states, %d generated, depth %d, %.1fs, %d cases emitted so far" %
-            (tag, res.distinct, res.generated, res.depth, res.wall, len(cases)))
-    if not cases:
-        raise Broken("TLC emitted no case")
-    cases.sort(key=lambda c: json.dumps([c["c"], c["ndir"], c["nsect"], c["nmini"], c["nmaxi"], c["nsmax"], c["mix"]]))
-
-    # ---- vacuity of the case set
+    # ---- TLC: model checking and emission of the cases
+    ch = Chunks(w, "n")
     cats = {}
-    for c in cases:
+    nside = [0] * len(metric_names)
+    seen_ids = set()
+    nontrivial = set()
+
+    def on_emit(c):
+        c["id"] = case_id([c["c"], c["ndir"], c["nsect"], c["nmini"], c["nmaxi"], c["nsmax"], c["radiusRank"],
+                           c["xvalid"], c["kfold"]])
+        seen_ids.add(c["id"])    # (the same case may be produced by two runs of the thorough tier: harmless)
+        if 0 < len(c["expected"]) < len(c["c"]):
+            nontrivial.add(c["id"])
+        c["b"] = [m + 1 for m, bi in enumerate(c["ball"]) if bi["side"]]
+        for m in c["b"]:
+            nside[m - 1] += 1
         for k in c["cat"]:
             cats[k] = cats.get(k, 0) + 1
+        ch.write(c)
+
+    states = trans = 0
+    for j, b in enumerate(B["neigh"]):
+        cfgp = os.path.join(w, "mc_%d.cfg" % j)
+        open(cfgp, "w").write(MC_CFG % dict(b, salts=", ".join(str(s) for s in b["Salts"]), rich=tla_bool(b["Rich"]),
+                                            emit=tla_bool(b["Emit"]), pvals=", ".join(str(v) for v in b["PVals"])))
+        n0 = ch.count
+        res = vlib.run_tlc("MC_NeighMoving", cfgp, env={"GEOM": geomp}, timeout=6000, heap="4g", on_emit=on_emit)
+        if res.violation:
+            raise Broken("the transcription of the code disagrees with the definition inside the model "
+                         "(MC_NeighMoving, run %d):\n%s" % (j, res.violation))
+        states += res.distinct
+        trans += res.generated
+        ck.cov["mc_neigh_run_%d" % j] = dict(constants=b, distinct_states=res.distinct, generated=res.generated,
+                                            cases_emitted=ch.count - n0, wall_s=round(res.wall, 1))
+        log("[C06] MC_NeighMoving run %d: %d distinct states, %d generated, depth %d, %.1fs, %d cases emitted" %
+            (j, res.distinct, res.generated, res.depth, res.wall, ch.count - n0))
+    ch.close()
+    ncases = ch.count
+    if not ncases:
+        raise Broken("TLC emitted no case")
+
+    # ---- vacuity of the case set
     wanted = ["inactive", "undefined", "checker", "outside", "xvalidExcl", "kfoldExcl", "flagKept", "nminiEmpty",
               "nsmaxCut", "quotaCut", "unevenQuota", "singleCut", "allKept", "reordered"]
     for k in wanted:
         if not cats.get(k):
             raise Broken("vacuous case set: no case of category %s" % k)
     ck.cov["case_categories"] = cats
-    ck.cov["second_nmini_test_is_dead_code_cases"] = cats.get("secondTestDead", 0)
+    ck.cov["cases_where_a_live_second_nmini_test_would_differ"] = cats.get("secondTestDead", 0)
 
-    # ---- cases for the harness
-    nch = nchunks()
-    chunks = [os.path.join(w, "cases_%d.ndjson" % i) for i in range(nch)]
-    outs = [os.path.join(w, "obs_%d.ndjson" % i) for i in range(nch)]
-    files = [open(p, "w") for p in chunks]
-    nside = [0] * len(metric_names)
-    for idx, c in enumerate(cases):
-        c["id"] = idx
-        b = [m + 1 for m, bi in enumerate(c["ball"]) if bi["side"]]
-        for m in b:
-            nside[m - 1] += 1
-        rec = {k: c[k] for k in ("id", "c", "ndir", "nsect", "nmini", "nmaxi", "nsmax", "radiusRank", "xvalid", "kfold")}
-        rec["b"] = b
-        files[idx % nch].write(json.dumps(rec, separators=(",", ":")) + "\n")
-    for f in files:
-        f.close()
+    # ---- the real library
     t0 = time.time()
-    crashes = run_parallel(exe, "neigh", chunks, [planp], outs, timeout=3000)
-    log("[C06] neigh_run: %d cases in %d configurations, %.1fs" % (len(cases), len(plan["configs"]), time.time() - t0))
+    crashes = run_parallel(exe, "neigh", ch.cases, [planp], ch.outs, timeout=6000)
+    log("[C06] neigh_run: %d cases x %d configurations in %.1fs" % (ncases, len(plan["configs"]), time.time() - t0))
 
     # ---- comparison
     cfgs = plan["configs"]
     nrun = {c["name"]: 0 for c in cfgs}
     nball = {c["name"]: 0 for c in cfgs}
-    nskip = 0
-    ncmp = 0
-    for cr in crashes:
-        c = cases[cr["i"]]
-        ck.disagree({"kind": "neigh", "cfg": cfgs[cr["g"]]["name"], "search": "crash", "signal": cr["crash"]},
-                    replay_of(c, cfgs[cr["g"]], None, None))
-    for op in outs:
-        for o in vlib.read_ndjson(op):
-            if "crash" in o:
-                continue
-            c = cases[o["i"]]
-            cfg = cfgs[o["g"]]
+    nball_agree = 0
+    nskip = ncmp = 0
+    samples = Samples()
+    dis = Disagreements()
+    for casefile, obsfile in zip(ch.cases, ch.outs):
+        for c, obs in lockstep(casefile, obsfile):
             exp = [x - 1 for x in c["expected"]]
-            if "skip" in o:
-                nskip += 1
-                continue
-            if "exc" in o or "attach" in o:
-                ck.disagree({"kind": "neigh", "cfg": cfg["name"], "search": "error", "what": o.get("exc", "attach failed")},
-                            replay_of(c, cfg, o, exp))
-                continue
-            nrun[cfg["name"]] += 1
-            ncmp += 1
-            if o["r"] != exp:
-                ck.disagree({"kind": "neigh", "cfg": cfg["name"], "search": "plain", "observed_empty": o["r"] == [],
-                             "nsect": c["nsect"], "xvalid": c["xvalid"], "kfold": c["kfold"]},
-                            replay_of(c, cfg, o, exp))
-            elif ncmp % 9973 == 1:
-                ck.sample({"case": slim(c), "config": cfg["name"], "expected": exp, "observed": o["r"]})
-            for leaf, r in o.get("b", []):
-                bi = c["ball"][cfg["metric"] - 1]
-                nball[cfg["name"]] += 1
+            for o in obs:
+                cfg = cfgs[o["g"]]
+                if "crash" in o:
+                    dis.add({"kind": "neigh", "cfg": cfg["name"], "search": "crash", "signal": o["crash"]},
+                            c["id"], lambda: replay_of(c, cfg, o, exp))
+                    continue
+                if "skip" in o:
+                    nskip += 1
+                    continue
+                if "exc" in o or "attach" in o:
+                    dis.add({"kind": "neigh", "cfg": cfg["name"], "search": "error",
+                             "what": o.get("exc", "attach failed")}, c["id"], lambda: replay_of(c, cfg, o, exp))
+                    continue
+                nrun[cfg["name"]] += 1
                 ncmp += 1
-                if r != exp:
-                    ck.disagree({"kind": "neigh", "cfg_metric": metric_names[cfg["metric"] - 1], "search": "ball",
+                if o["r"] != exp:
+                    dis.add({"kind": "neigh", "cfg": cfg["name"], "search": "plain", "observed_empty": o["r"] == []},
+                            c["id"], lambda: replay_of(c, cfg, o, exp))
+                elif len(exp) >= 2 and c["nsect"] > 1 and o["g"] == 0:
+                    samples.offer(c["id"], lambda: {"case": slim(c), "config": cfg["name"],
+                                                              "expected_ranks": exp, "observed_ranks": o["r"]})
+                for leaf, r in o.get("b", []):
+                    bi = c["ball"][cfg["metric"] - 1]
+                    nball[cfg["name"]] += 1
+                    ncmp += 1
+                    if r != exp:
+                        dis.add({"kind": "neigh", "cfg_metric": metric_names[cfg["metric"] - 1], "search": "ball",
                                  "cause": bi["cause"], "matches_model": r == [x - 1 for x in bi["model"]]},
-                                replay_of(c, cfg, o, exp, leaf))
+                                c["id"], lambda: replay_of(c, cfg, o, exp, leaf))
+                    else:
+                        nball_agree += 1
+    dis.flush(ck)
+    if len(crashes) > 0:
+        log("[C06] %d contained crash(es) of the library" % len(crashes))
     for name in nrun:
         if nrun[name] == 0:
             raise Broken("configuration %s was never run" % name)
     for c in cfgs:
         if c.get("ball") and nball[c["name"]] == 0:
             raise Broken("ball search never compared in configuration %s" % c["name"])
+    if nball_agree == 0:
+        raise Broken("ball search never agreed with the definition: the side condition is vacuous or the binding is wrong")
     if nskip > 0.2 * max(1, ncmp):
         raise Broken("too many skipped runs (%d of %d)" % (nskip, ncmp))
-    ck.cov["neigh_cases"] = len(cases)
+    for _, smp in samples.items:
+        ck.sample(smp)
+    ck.cov["neigh_cases"] = ncases
+    ck.cov["neigh_cases_distinct"] = len(seen_ids)
+    ck.cov["neigh_cases_nontrivial"] = len(nontrivial)
     ck.cov["neigh_runs_per_config"] = nrun
     ck.cov["ball_runs_per_config"] = nball
+    ck.cov["ball_runs_equal_to_definition"] = nball_agree
     ck.cov["ball_side_condition_cases_per_metric"] = dict(zip(metric_names, nside))
     ck.cov["neigh_runs_skipped_unrealisable"] = nskip
     ck.add("traces_validated_against_impl", ncmp)
-    return states, trans, len(cases)
+    return states, trans, len(nontrivial)
 
 
 def slim(c):
@@ -282,10 +379,11 @@ def slim(c):
 
 
 def replay_of(c, cfg, o, exp, leaf=None):
-    return {"how": "neigh_run neigh <file with the line 'case' (add \"id\" and \"b\")> <plan.json with this config> <out>",
-            "case": dict(slim(c), id=c["id"], b=[m + 1 for m, bi in enumerate(c["ball"]) if bi["side"]]),
+    return {"how": "write 'case' as one line of a file, {\"configs\": [config]} as plan.json, then: "
+                   ".build/bin/neigh_run neigh <cases> <plan.json> <out>",
+            "case": dict(slim(c), id=c["id"], b=c["b"]),
             "candidate_fields": ["active", "defined", "distRank", "sector", "passesCheckers", "isTargetOrFold"],
-            "config": cfg, "expected_ranks": exp, "observed": o, "ball_leaf": leaf,
+            "config": dict(cfg, every=1, offset=0), "expected_ranks": exp, "observed": o, "ball_leaf": leaf,
             "ball": c["ball"][cfg["metric"] - 1] if cfg.get("metric") else None}
 
 
@@ -294,69 +392,81 @@ def replay_of(c, cfg, o, exp, leaf=None):
 def knn_part(ck, tier, exe, B):
     w = ck.work
     states = trans = 0
-    cases = []
+    ch = Chunks(w, "k")
+
+    nontrivial = set()
+
+    def on_emit(c):
+        c["id"] = case_id([c["dim"], c["pts"], c["q"]])
+        if len(c["pts"]) >= 2:
+            nontrivial.add(c["id"])
+        ch.write(c)
+
     for j, b in enumerate(B["knn"]):
         cfgp = os.path.join(w, "knn_%d.cfg" % j)
         open(cfgp, "w").write(KNN_CFG % dict(b, dims=", ".join(str(d) for d in b["D"])))
-        res = vlib.run_tlc("KNN", cfgp, timeout=3000, heap="3g", on_emit=cases.append)
+        n0 = ch.count
+        res = vlib.run_tlc("KNN", cfgp, timeout=6000, heap="3g", on_emit=on_emit)
         if res.violation:
             raise Broken("KNN.tla: the sorted sequence does not satisfy the definition:\n" + res.violation)
         states += res.distinct
         trans += res.generated
-        log("[C06] KNN %s: %d distinct states, %.1fs, %d cases so far" % (b, res.distinct, res.wall, len(cases)))
-    cases.sort(key=lambda c: json.dumps([c["dim"], c["pts"], c["q"]]))
-    ck.cov["knn_bounds"] = B["knn"]
-    nch = nchunks()
-    chunks = [os.path.join(w, "kcases_%d.ndjson" % i) for i in range(nch)]
-    outs = [os.path.join(w, "kobs_%d.ndjson" % i) for i in range(nch)]
-    files = [open(p, "w") for p in chunks]
-    for idx, c in enumerate(cases):
-        c["id"] = idx
-        files[idx % nch].write(json.dumps(c, separators=(",", ":")) + "\n")
-    for f in files:
-        f.close()
+        ck.cov["mc_knn_run_%d" % j] = dict(constants=b, distinct_states=res.distinct, cases_emitted=ch.count - n0,
+                                          wall_s=round(res.wall, 1))
+        log("[C06] KNN %s: %d distinct states, %.1fs, %d cases" % (b, res.distinct, res.wall, ch.count - n0))
+    ch.close()
+    if not ch.count:
+        raise Broken("no KNN case was emitted")
     t0 = time.time()
-    crashes = run_parallel(exe, "knn", chunks, [], outs, timeout=3000)
-    for cr in crashes:
-        c = cases[cr["i"]]
-        ck.disagree({"kind": "knn", "what": "crash", "signal": cr["crash"], "dim": c["dim"]}, {"case": c})
+    crashes = run_parallel(exe, "knn", ch.cases, [], ch.outs, timeout=6000)
     nobs = 0
     per = {}
-    for op in outs:
-        for o in vlib.read_ndjson(op):
-            if "crash" in o:
-                continue
-            c = cases[o["i"]]
-            e = c["euc"] if o["m"] == 1 else c["man"]
-            key = "%dD-%s" % (c["dim"], "euclidean" if o["m"] == 1 else "manhattan")
-            per[key] = per.get(key, 0) + 1
-            seen_k = set()
-            for ob in o["obs"]:
-                nobs += 1
-                k = ob["k"]
-                seen_k.add(k)
-                want_i = [x - 1 for x in e["order"][:k]]
-                want_d = [math.sqrt(x) if o["m"] == 1 else float(x) for x in e["d"][:k]]
-                ok = ob["ind"] == want_i and len(ob["d"]) == k and \
-                    all(abs(a - b2) <= 1e-12 * max(1.0, b2) for a, b2 in zip(ob["d"], want_d))
-                if not ok:
-                    ck.disagree({"kind": "knn", "metric": "euclidean" if o["m"] == 1 else "manhattan", "dim": c["dim"],
-                                 "k": k, "npts": len(c["pts"]), "wrong_indices": ob["ind"] != want_i,
-                                 "api": sorted(set(b.split(":")[1] for b in ob["by"]))},
-                                {"points": c["pts"], "query": c["q"], "k": k, "expected_indices": want_i,
-                                 "expected_distances": want_d, "observed_indices": ob["ind"],
-                                 "observed_distances": ob["d"], "produced_by(leaf:entry point)": ob["by"]})
-                elif nobs % 50021 == 1:
-                    ck.sample({"knn_points": c["pts"], "query": c["q"], "k": k, "expected": want_i, "observed": ob["ind"]})
-            if seen_k != set(range(1, len(c["pts"]) + 1)):
-                raise Broken("knn harness did not report every k for case %d" % c["id"])
-    log("[C06] knn: %d cases, %d distinct observations compared, %.1fs" % (len(cases), nobs, time.time() - t0))
-    if not per:
-        raise Broken("no KNN case was run")
-    for d in set(c["dim"] for c in cases):
-        if not any(k.startswith("%dD-euclidean" % d) for k in per):
+    dims = set()
+    samples = Samples(2)
+    dis = Disagreements()
+    for casefile, obsfile in zip(ch.cases, ch.outs):
+        for c, obs in lockstep(casefile, obsfile):
+            dims.add(c["dim"])
+            for o in obs:
+                if "crash" in o:
+                    dis.add({"kind": "knn", "what": "crash", "signal": o["crash"], "dim": c["dim"]}, c["id"],
+                            lambda: {"points": c["pts"], "query": c["q"], "metric": o.get("m")})
+                    continue
+                e = c["euc"] if o["m"] == 1 else c["man"]
+                mname = "euclidean" if o["m"] == 1 else "manhattan"
+                key = "%dD-%s" % (c["dim"], mname)
+                per[key] = per.get(key, 0) + 1
+                seen_k = set()
+                for ob in o["obs"]:
+                    nobs += 1
+                    k = ob["k"]
+                    seen_k.add(k)
+                    want_i = [x - 1 for x in e["order"][:k]]
+                    want_d = [math.sqrt(x) if o["m"] == 1 else float(x) for x in e["d"][:k]]
+                    ok = ob["ind"] == want_i and len(ob["d"]) == k and \
+                        all(abs(a - b2) <= 1e-12 * max(1.0, b2) for a, b2 in zip(ob["d"], want_d))
+                    if not ok:
+                        dis.add({"kind": "knn", "metric": mname, "dim": c["dim"], "wrong_indices": ob["ind"] != want_i,
+                                 "wrong_count": len(ob["ind"]) != k},
+                                c["id"] + k,
+                                lambda: {"points": c["pts"], "query": c["q"], "metric": mname, "k": k,
+                                         "expected_indices": want_i, "expected_distances": want_d,
+                                         "observed_indices": ob["ind"], "observed_distances": ob["d"],
+                                         "produced_by(leaf size:entry point)": ob["by"]})
+                    elif k >= 3 and o["m"] == 1:
+                        samples.offer(c["id"] + k, lambda: {"knn_points": c["pts"], "query": c["q"], "k": k,
+                                                            "expected_indices": want_i, "observed_indices": ob["ind"]})
+                if seen_k != set(range(1, len(c["pts"]) + 1)):
+                    raise Broken("knn harness did not report every k for case %d" % c["id"])
+    dis.flush(ck)
+    log("[C06] knn: %d cases, %d distinct observations compared, %.1fs" % (ch.count, nobs, time.time() - t0))
+    for d in dims:
+        if not per.get("%dD-euclidean" % d):
             raise Broken("no Euclidean KNN case in dimension %d" % d)
-    ck.cov["knn_cases"] = len(cases)
+    for _, smp in samples.items:
+        ck.sample(smp)
+    ck.cov["knn_cases"] = ch.count
+    ck.cov["knn_cases_nontrivial"] = len(nontrivial)
     ck.cov["knn_runs_per_dim_metric"] = per
     ck.add("traces_validated_against_impl", nobs)
     return states, trans
@@ -370,19 +480,22 @@ def run(tier):
     exe = vlib.build_harness("neigh_run")
     B = bounds(tier)
     plan = make_plan(tier)
-    s1, t1, ncases = neigh_part(ck, tier, exe, B, plan)
+    s1, t1, nnontriv = neigh_part(ck, tier, exe, B, plan)
     s2, t2 = knn_part(ck, tier, exe, B)
     ck.cov["states"] = s1 + s2
     ck.cov["transitions"] = t1 + t2
     ck.cov["evaluations"] = ck.cov.get("traces_validated_against_impl", 0)
-    ck.cov["distinct_nontrivial"] = ncases + ck.cov.get("knn_cases", 0)
+    ck.cov["distinct_nontrivial"] = nnontriv + ck.cov.get("knn_cases_nontrivial", 0)
     ck.cov["rule"] = ("NeighMoving: every case TLC builds within the bounds (candidates in Db order x sectors x admissibility x "
                       "nmini/nmaxi/nsect/nsmax, derived rejection reasons / distance permutations / radius / cross-validation "
                       "mode) is checked in the model (Algorithm = Definition) and - all of them in the quick bound, an "
                       "arithmetic 1/EmitMod slice plus the full small bound in the thorough tier - concretised in each "
                       "configuration of the plan and run on the real NeighMoving (plain search; ball search when the spec's "
                       "side condition holds). KNN: every subset of the lattice x every query point without equal distances, "
-                      "every k, every leaf size, every query entry point.")
+                      "every k, every leaf size, every query entry point. "
+                      "evaluations = comparisons of a real result with the expected one; distinct_nontrivial = distinct "
+                      "neighbourhood cases (by content) whose expected selection is a non-empty proper subset of the "
+                      "candidates + distinct KNN cases with at least two points.")
     ck.cov["configurations"] = [c["name"] for c in plan["configs"]]
     ck.assumptions += [
         "ties and boundary positions are excluded: distinct distance ranks, samples strictly inside sectors, radius half a "
@@ -394,10 +507,4 @@ def run(tier):
         "ball search is compared only when the nmaxi Euclidean-nearest samples are all admissible (condition computed by TLC "
         "from the Euclidean lengths of the concretisation)",
         "process-wide default space is set to the dimension of each configuration before use"]
-    summary = {}
-    for rec, _ in ck.violations:
-        k = json.dumps(rec, sort_keys=True)
-        summary[k] = summary.get(k, 0) + 1
-    for k, v in sorted(summary.items(), key=lambda kv: -kv[1])[:40]:
-        log("[C06] unlisted disagreement x%d: %s" % (v, k))
     return ck.finish()
